@@ -34,6 +34,31 @@ class Body:
         return '%s%s' % (self.method.key(), ' [loop body]' if self.in_loop else '')
 
 
+def empty_range_exit(top, m):
+    """a path of a range method that leaves at once because the range handed in is empty (begin == end, r.empty(), r.size() == 0):
+    nothing to do, no state effect, no answer owed"""
+    if top.loops or top.state_effects() or [e for e in top.effects if e.kind in ('OUT_WR', 'OUT_CALL') and e.name not in ('reserve',)]:
+        return False
+    from symex import root_of
+    for c in top.conds:
+        raw, rt = c[4], c[5]
+        if not (isinstance(raw, tuple) and raw):
+            continue
+        if raw[0] == 'cmp' and raw[1] in ('==', '!='):
+            a, b = raw[2], raw[3]
+            both_range = all(isinstance(x, tuple) and x and (x[0] == 'p' or (x[0] == 'q' and x[1] in ('begin', 'end', 'cbegin', 'cend')
+                                                                         and root_of(x[2])[0] == 'param')) for x in (a, b))
+            if both_range and ((raw[1] == '==') == bool(rt)):
+                return True
+            for x, y in ((a, b), (b, a)):
+                if isinstance(x, tuple) and x and x[0] == 'q' and x[1] == 'size' and root_of(x[2])[0] == 'param' and y == ('int', 0) \
+                        and ((raw[1] == '==') == bool(rt)):
+                    return True
+        if raw[0] == 'q' and raw[1] == 'empty' and root_of(raw[2])[0] == 'param' and bool(rt):
+            return True
+    return False
+
+
 def feasible_iters(segs):
     out = []
     for s in segs:
